@@ -216,6 +216,12 @@ def repo_state():
 
 # ------------------------------------------------------------------ running cases
 
+# address-space ceiling of one harness / model process: a changed loader that loops while allocating must end as
+# CRASH-OR-HANG, not exhaust the machine (seen with a seeded change that ignores end-of-file)
+MEM_KIB = 6 * 1024 * 1024
+TRANSLATOR_INFO = {}
+
+
 def run_cases(binary, cases, tag, timeout=900, shards=16):
     """cases: list of case lines.  Returns list of observation strings (same order)."""
     os.makedirs(RUN, exist_ok=True)
@@ -232,7 +238,7 @@ def run_cases(binary, cases, tag, timeout=900, shards=16):
         path = os.path.join(RUN, "%s.%d.cases" % (tag, s))
         with open(path, "w") as f:
             f.write("\n".join(part) + "\n")
-        p = subprocess.Popen("ulimit -s unlimited 2>/dev/null || ulimit -s 1000000 2>/dev/null; exec %s %s" % (binary, path),
+        p = subprocess.Popen("ulimit -s unlimited 2>/dev/null || ulimit -s 1000000 2>/dev/null; ulimit -v %d 2>/dev/null; exec %s %s" % (MEM_KIB, binary, path),
                              shell=True, stdout=subprocess.PIPE, stderr=subprocess.DEVNULL, env=ENV)
         procs.append((p, len(part), path))
     out = []
@@ -319,6 +325,8 @@ def main_check(prop, argv):
                 tr = translate.regenerate()
             except InfraError as e:
                 tr = {"degraded": str(e)}
+            global TRANSLATOR_INFO
+            TRANSLATOR_INFO = tr
             # 2. proofs
             coq_ok, coq_log = coq_build()
             bad = forbidden_scan()
